@@ -151,6 +151,9 @@ def jobs(tier):
     for sc in ('after_dense_bidir', 'before_dense_bidir', 'after_blocked', 'with_twin') + (('between',) if tier != 'quick' else ()):
         js.append(dict(name=f'H16:independence:{sc}', fn='h_independence', params=dict(scenario=sc), cost=500, witness_every=2,
                        budget_s=170 if tier == 'quick' else 700, opts=dict(query_timeout_ms=3000, branch_timeout_ms=1500, rf_budget=(400, 4000), witness_timeout_ms=5000)))
+    for method in ('ggn_approx', 'ggn_spectrally_separated'):
+        js.append(dict(name=f'H16d:simulation_parameters_not_changed_by_a_request:{method}', module='harness.c02', fn='h_nli_sim_params',
+                       params=dict(method=method), cost=20))
     js.append(dict(name='H16b:request_parsing_independence', fn='h_parse_independence', cost=100, witness_every=50,
                    budget_s=170 if tier == 'quick' else 600))
     for sh in ('triangle',) + (('ring4', 'ring4+chord') if tier != 'quick' else ()):
